@@ -93,7 +93,7 @@ def run_harness(args, timeout=1800, cwd=None, env=None):
     e = dict(os.environ)
     if env:
         e.update(env)
-    p = subprocess.run([RWSV] + [str(a) for a in args], stdout=subprocess.PIPE, stderr=subprocess.PIPE,
+    p = subprocess.run([RWSV] + [str(a) for a in args], stdout=subprocess.DEVNULL, stderr=subprocess.PIPE,
                        text=True, timeout=timeout, cwd=cwd, env=e)
     if p.returncode != 0:
         raise ToolError("harness %s exited %d:\n%s" % (args[0], p.returncode, p.stderr[-3000:]))
@@ -142,13 +142,14 @@ def _unquote_tla_string(s):
 
 def run_tlc(module, cfg=None, workers=4, timeout=900, env=None, simulate=None, depth=None,
             heap="4g", stack="64m", deque=False, coverage=False, seed_arg=None, extra=None,
-            case_sink=None):
+            case_sink=None, spec_dir=None):
     """Run TLC on spec/<module>.tla with spec/<cfg or module>.cfg; returns TlcResult.
     case_sink: optional open file; CASE lines are written there (one JSON per line) instead of kept in memory."""
     md = tempfile.mkdtemp(prefix="rwsv-tlc-")
     res = TlcResult()
     cfg = cfg or module
-    jopts = ["-XX:+UseParallelGC", "-Xmx" + heap, "-Xss" + stack]
+    jopts = ["-XX:+UseParallelGC", "-Xmx" + heap, "-Xss" + stack, "-DTLA-Library=" + SPEC]
+    sdir = spec_dir or SPEC
     if deque:
         jopts.append("-Dtlc2.tool.queue.IStateQueue=StateDeque")
     cmd = ["java"] + jopts + ["-cp", TLA_CP, "tlc2.TLC", "-workers", str(workers), "-metadir", md,
@@ -163,7 +164,7 @@ def run_tlc(module, cfg=None, workers=4, timeout=900, env=None, simulate=None, d
             cmd += ["-seed", str(seed_arg)]
     if extra:
         cmd += extra
-    cmd += ["-config", os.path.join(SPEC, cfg + ".cfg"), os.path.join(SPEC, module + ".tla")]
+    cmd += ["-config", os.path.join(sdir, cfg + ".cfg"), os.path.join(sdir, module + ".tla")]
     e = dict(os.environ)
     e.pop("JAVA_TOOL_OPTIONS", None)
     if env:
@@ -216,7 +217,7 @@ def run_tlc(module, cfg=None, workers=4, timeout=900, env=None, simulate=None, d
         m = re.search(r"Invariant (\w+) is violated", res.out)
         if m:
             res.violated = m.group(1)
-        m = re.search(r"Temporal properties were violated", res.out)
+        m = re.search(r"Temporal propert(y|ies) .*violated", res.out)
         if m and not res.violated:
             res.violated = "temporal"
         if "Deadlock reached" in res.out and not res.violated:
@@ -256,13 +257,13 @@ def model_check(module, cfg=None, expect_violation=None, **kw):
     return r
 
 
-def validate_trace(module, trace_path, cfg=None, timeout=1800, heap="6g", extra_env=None):
+def validate_trace(module, trace_path, cfg=None, timeout=1800, heap="6g", extra_env=None, spec_dir=None):
     """Validate an ndjson trace recorded from the real code against spec/<module>.tla.
     Returns TlcResult with .fails (rejected events) and .done = [events, nfail]."""
     env = {"TRACE": trace_path}
     if extra_env:
         env.update(extra_env)
-    r = run_tlc(module, cfg, workers=1, timeout=timeout, env=env, heap=heap, stack="1g", deque=True)
+    r = run_tlc(module, cfg, workers=1, timeout=timeout, env=env, heap=heap, stack="1g", deque=True, spec_dir=spec_dir)
     if r.done is None or not r.ok:
         raise ToolError("trace validation of %s by %s did not run to the end of the trace:\n%s" % (trace_path, module, r.out[-3000:]))
     return r
